@@ -211,6 +211,22 @@ func (m *Machine) callValue(s *State, f *Frame, x *ssa.Call, cc *ssa.CallCommon,
 				s.store(Ptr{obj: dst.obj, path: append(append([]int(nil), dst.path...), dst.off+i)}, src[i])
 			}
 			setRes(Sc{c.BV(uint64(n), 64)})
+		case "min", "max":
+			_, signed, _ := intWidth(cc.Args[0].Type())
+			acc := sc(args[0])
+			for _, a := range args[1:] {
+				t := sc(a)
+				op := "bvult"
+				if signed {
+					op = "bvslt"
+				}
+				lt := c.Cmp(op, t, acc)
+				if callee.Name() == "max" {
+					lt = c.Cmp(op, acc, t)
+				}
+				acc = c.Ite(lt, t, acc)
+			}
+			setRes(Sc{acc})
 		case "append":
 			setRes(m.doAppend(s, x.Type(), args[0].(SliceV), m.bytesOfAny(s, args[1])))
 		default:
